@@ -282,7 +282,7 @@ fn main() {
     "within one commit every id is touched at most once (ordering inside a batch is C04's subject)".into(),
   ];
   let quick = ctx.quick();
-  let n = ctx.n(1200, 15000);
+  let n = ctx.n(1200, 120_000);
   ctx.run_cases("idx", n, |rng: &mut Rng, l: &mut Local, scratch| {
     let sch = gen_schema(rng);
     let schema = match idx::schema(&sch.json) {
